@@ -12,38 +12,25 @@
 (*                instance node: same object -> same result, distinct      *)
 (*                objects -> distinct results.                             *)
 (***************************************************************************)
-EXTENDS FdlHeap, Json
+EXTENDS FdlGen, FdlBuild, Json
 
-CONSTANTS MaxObjs, MaxItems, NLeaves, NKeys, NFns, NSlots,
-          KindSet,     \* subset of {"config", "list", "tuple", "dict", "ntuple"}
-          WithBuild,   \* explore the build phase (interleavings of Call)
+CONSTANTS WithBuild,   \* explore the build phase (interleavings of Call)
           EmitOn
 
-VARIABLES heap, phase, called
-
-KindPool ==
-     (IF "config" \in KindSet THEN {[k |-> "config", fn |-> f, slots |-> NSlots] : f \in 1..NFns}
-      ELSE {})
-  \cup (IF "list" \in KindSet THEN {[k |-> "list", fn |-> 0, slots |-> 0]} ELSE {})
-  \cup (IF "tuple" \in KindSet THEN {[k |-> "tuple", fn |-> 0, slots |-> 0]} ELSE {})
-  \cup (IF "dict" \in KindSet THEN {[k |-> "dict", fn |-> 0, slots |-> 0]} ELSE {})
-  \cup (IF "ntuple" \in KindSet THEN {[k |-> "ntuple", fn |-> 0, slots |-> 2]} ELSE {})
-
-Root == Len(heap)
+VARIABLES phase, called
 
 Init == heap = <<>> /\ phase = "gen" /\ called = <<>>
 
-NewObj ==
+GenStep ==
   /\ phase = "gen"
-  /\ Len(heap) < MaxObjs
-  /\ \E kd \in KindPool : \E o \in NewObjects(heap, kd, MaxItems, NLeaves, NKeys) :
-       heap' = Append(heap, o)
+  /\ NewObj
   /\ UNCHANGED <<phase, called>>
 
 StartBuild ==
   /\ WithBuild
   /\ phase = "gen"
   /\ Complete(heap)
+  /\ ~BuildFails(heap, Root)
   /\ phase' = "build"
   /\ UNCHANGED <<heap, called>>
 
@@ -64,25 +51,9 @@ Finish ==
   /\ phase' = "done"
   /\ UNCHANGED <<heap, called>>
 
-Next == NewObj \/ StartBuild \/ (\E o \in 1..Len(heap) : Call(o)) \/ Finish
+Next == GenStep \/ StartBuild \/ (\E o \in 1..Len(heap) : Call(o)) \/ Finish
 
-\* internable (leaf-only) tuples have value semantics in fiddle; the generator
-\* does not share them (C08 and C06 treat them explicitly)
-LeafOnly(o) == o.k \in {"tuple", "ntuple"} /\ \A j \in 1..Len(o.items) : ~IsRef(o.items[j].val)
-RefCount(h, i) ==
-  Cardinality({<<j, m>> \in (1..Len(h)) \X (1..MaxItems + 1) :
-                 m <= Len(h[j].items) /\ h[j].items[m].val = -i})
-NoSharedInternable ==
-  /\ \A i \in 1..Len(heap) : LeafOnly(heap[i]) => RefCount(heap, i) <= 1
-  \* CPython has a single empty tuple object
-  /\ Cardinality({i \in 1..Len(heap) : heap[i].k = "tuple" /\ heap[i].items = <<>>}) <= 1
-
-Prune == Adoptable(heap, MaxObjs, MaxItems) /\ NoSharedInternable
-
-\* The built graph: configs become instances; everything else is rebuilt as
-\* the same kind with the same keys; references follow the object map.
-BuiltKind(k) == IF k = "config" THEN "inst" ELSE k
-Built(h) == [i \in 1..Len(h) |-> Obj(BuiltKind(h[i].k), h[i].fn, h[i].items)]
+Prune == GenPrune
 
 (* --------------------------- checked formulas -------------------------- *)
 ExactlyOnce ==
@@ -94,11 +65,15 @@ DepsFirst ==
     BuildableDeps(heap, called[i]) \subseteq {called[j] : j \in 1..i - 1}
 \* the result graph is isomorphic to the configuration graph (same sharing,
 \* distinct nodes stay distinct), and only kinds differ
+\* (stand-alone TaggedValues vanish: compare on heaps without them)
 MirrorsConfig ==
-  phase = "done" =>
-    LET b == Canon(Built(heap), Root)  c == Canon(heap, Root) IN
+  (phase = "done" /\ \A i \in 1..Len(heap) : heap[i].k # "tagged") =>
+    LET b == BuiltCanon(heap, Root)  c == Canon(heap, Root) IN
     /\ Len(b) = Len(c)
-    /\ \A i \in 1..Len(c) : b[i].items = c[i].items /\ b[i].k = BuiltKind(c[i].k)
+    /\ \A i \in 1..Len(c) :
+         /\ b[i].k = BuiltKind(c[i].k)
+         /\ Len(b[i].items) = Len(c[i].items)
+         /\ \A j \in 1..Len(c[i].items) : b[i].items[j].val = c[i].items[j].val
 \* the build can always be completed (no deadlock among dependencies: DAG)
 Progress ==
   phase = "build" =>
@@ -108,7 +83,10 @@ Progress ==
 EmitHeap ==
   (EmitOn /\ phase = "gen" /\ Complete(heap) /\ Prune) =>
     PrintT(ToJson([heap |-> Canon(heap, Root),
-                   built |-> Canon(Built(heap), Root),
+                   fails |-> BuildFails(heap, Root),
+                   builtroot |-> BuiltRoot(Canon(heap, Root), 1),
+                   built |-> BuiltCanon(heap, Root),
+                   bindex |-> BuiltIndex(heap, Root),
                    buildables |-> [o \in 1..Len(Canon(heap, Root)) |->
                                      IsBuildableKind(Canon(heap, Root)[o].k)],
                    deps |-> [o \in 1..Len(Canon(heap, Root)) |->
